@@ -40,4 +40,94 @@ def run (j : Json) : Json :=
     | some t => Json.arr ((Model.HT.run t ops).map obsJ).toArray
   obj [("L", l), ("S", Json.arr ((Spec.Dict.run d0 ops).map obsJ).toArray)]
 
+/-! ### extended histories: the whole-table functions (`likeWith`, `addNum`, `addTable`, `tableEq`) next to the
+operations of `Model.HT.Op`; L = the table model, S = the dictionary -/
+
+def pairsJ (l : List (Int × Int)) : Json := toJson ((sortPairs l).map (fun p => [p.1, p.2]))
+
+structure XState where
+  t : Table Int
+  d : Spec.Dict Int
+
+/-- one JSON operation on (table, dictionary): new state, L observation, S observation (`null` = not modelled) -/
+def stepX (keys : List Int) (mod : Nat) (args : List Nat) (st : XState) (j : Json) : XState × Json × Json :=
+  let t := st.t; let d := st.d
+  let mk (vals : Sum Int (List Int)) : Option (Table Int) := build keys vals mod args
+  match fldStr j "t" with
+  | "zeros_like" => (st, pairsJ (items (likeWith t 0)), pairsJ (d.map (fun p => (p.1, 0))))
+  | "ones_like" => (st, pairsJ (items (likeWith t 1)), pairsJ (d.map (fun p => (p.1, 1))))
+  | "like_set" =>
+      let c : Int := if fldStr j "like" == "zeros" then 0 else 1
+      let ks := jIntList (fld j "ks"); let x := fldInt j "x"
+      let l := match setVec (likeWith t c) ks (.inl x) with
+        | some r => pairsJ (items r)
+        | none => refuse
+      let d0 : Spec.Dict Int := d.map (fun p => (p.1, c))
+      let s := if ks.all (Spec.Dict.mem d0) then pairsJ (ks.foldl (fun (acc : Spec.Dict Int) k => Spec.Dict.assign acc k x) d0) else refuse
+      (st, l, s)
+  | "iadd_num" =>
+      let x := fldInt j "x"
+      (⟨addNum t x, d.map (fun p => (p.1, p.2 + x))⟩, toJson true, toJson true)
+  | "iadd_table" =>
+      let xs := jIntList (fld j "xs")
+      let vals : Sum Int (List Int) := if (fld j "scalar").getBool?.toOption.getD false then .inl (xs.headD 0) else .inr xs
+      let dv : List Int := match vals with | .inl s => keys.map (fun _ => s) | .inr vs => vs
+      let d2 := keys.zip dv
+      match mk vals with
+      | none => (st, refuse, refuse)
+      | some u => match addTable t u with
+        | none => (st, refuse, pairsJ d2)
+        | some r => (⟨r, d.map (fun p => (p.1, p.2 + ((Spec.Dict.lookup d2 p.1).getD 0)))⟩, pairsJ (items u), pairsJ d2)
+  | "add_self" =>
+      let l := match addTable t t with | some r => pairsJ (items r) | none => refuse
+      (st, l, pairsJ (d.map (fun p => (p.1, p.2 + p.2))))
+  | "eq_self" => (st, toJson (tableEq t t), toJson true)
+  | "eq_other" =>
+      let i := fldNat j "i"; let delta := fldInt j "delta"
+      let cur := keys.map (fun k => (Spec.Dict.lookup d k).getD 0)
+      let cur' := cur.set i ((cur.getD i 0) + delta)
+      let l := match mk (.inr cur') with | some u => toJson (tableEq t u) | none => refuse
+      (st, l, toJson (decide (delta = 0)))
+  | "eq_big" =>
+      match jInt? (fld j "base") with
+      | none => (st, Json.null, Json.null)
+      | some b =>
+        let i := fldNat j "i"; let delta := fldInt j "delta"
+        let v1 : List Int := (List.range keys.length).map (fun (n : Nat) => b + 3 * (n : Int))
+        let v2 := v1.set i ((v1.getD i 0) + delta)
+        let l := match mk (.inr v1), mk (.inr v2) with
+          | some a, some c => toJson (tableEq a c)
+          | _, _ => refuse
+        (st, l, toJson (decide (delta = 0)))
+  | "hs_contains1" =>
+      let k := fldInt j "k"
+      (st, toJson (findKey t k).isSome, toJson (Spec.Dict.mem d k))
+  | "add_perm" => (st, Json.null, Json.null)
+  | _ =>
+      let op := parseOp j
+      let r := Model.HT.step t op
+      let r' := Spec.Dict.step d op
+      (⟨r.1, r'.1⟩, obsJ r.2, obsJ r'.2)
+
+/-- op `HT.runx`: like `HT.run`, with the whole-table functions -/
+def runX (j : Json) : Json :=
+  let keys := jIntList (fld j "keys")
+  let vals : Sum Int (List Int) := match fld j "vals" with
+    | .arr a => .inr (a.toList.filterMap jInt?)
+    | x => .inl ((jInt? x).getD 0)
+  let mod := match fld j "mod" with
+    | .null => defaultMod keys.length
+    | m => (jNat? m).getD 1
+  let args := stableArgsort (keys.map (hashOf mod))
+  let d0 : Spec.Dict Int := match vals with
+    | .inl s => keys.map (fun k => (k, s))
+    | .inr vs => keys.zip vs
+  match build keys vals mod args with
+  | none => obj [("L", refuse), ("S", refuse)]
+  | some t =>
+    let res := (jArr (fld j "ops")).foldl (fun (acc : XState × List Json × List Json) op =>
+      let r := stepX keys mod args acc.1 op
+      (r.1, acc.2.1 ++ [r.2.1], acc.2.2 ++ [r.2.2])) (⟨t, d0⟩, [], [])
+    obj [("L", Json.arr res.2.1.toArray), ("S", Json.arr res.2.2.toArray)]
+
 end Drv.HTd
